@@ -16,7 +16,11 @@ def _work(item):
     sx = impl_b09.sexp(text)
     impl = impl_b09.convert(text, o)
     req = impl_b09.convast_request(sx, o) if sx is not None else None
-    return req, impl
+    aux = {}
+    if o["flags"][5] == "1" and impl.startswith("ok "):
+        o2 = dict(o, flags=o["flags"][:5] + "0" + o["flags"][6:])
+        aux["nodeps"] = impl_b09.convert(text, o2)
+    return req, impl, aux
 
 
 def programs(tier):
@@ -52,7 +56,8 @@ def run(tier):
     with mp.Pool(16) as pool:
         res = pool.map(_work, [(c["text"], c["opts"]) for c in cs], chunksize=8)
     reqs, idx = ["setlib " + hexs(impl_b09.lib_text().encode())], []
-    for k, (req, impl) in enumerate(res):
+    for k, (req, impl, aux) in enumerate(res):
+        cs[k]["aux"] = aux
         if req is not None:
             idx.append(k)
             reqs.append(req)
@@ -60,7 +65,7 @@ def run(tier):
     model = [None] * len(cs)
     for k, o in zip(idx, outs):
         model[k] = o
-    impl = [i for _, i in res]
+    impl = [i for _, i, _ in res]
     # text that the real front end rejects (or crashes on) is outside this boundary: the model side
     # is "not applicable" and the case is compared only by the end-to-end suite later
     for k in range(len(cs)):
